@@ -15,7 +15,7 @@ NOT_CLAIMED = {}
 
 # properties whose check the lead has verified quiet on the unchanged tree; the others are listed
 # under not_applicable ("being built") until then
-READY = ["C02", "C05", "C06", "C07", "C08", "C09", "C13", "C14", "C15", "C17", "C18", "C19", "C20"]
+READY = ["C01", "C02", "C03", "C04", "C05", "C06", "C07", "C08", "C09", "C10", "C11", "C12", "C13", "C14", "C15", "C16", "C17", "C18", "C19", "C20"]
 
 
 def _claims():
